@@ -22,6 +22,15 @@ Record mio := mk_mio {
 }.
 Definition to_mio (i : io) : mio := mk_mio (scr i) (dat i) [] [] [].
 Definition of_mio (m : mio) : io := mk_io (mscr m) (mdat m).
+Definition mset_call (m : mio) (d : list variant) (a f : list (list marg)) (b : list variant) : mio := mk_mio (mscr m) d a f b.
+
+(** READ inside the frame of the call: one item per argument, converted to the type of the argument's value *)
+Definition read_frame (fr : list marg) (d : list variant) : (list marg * list variant) + (verr * list variant) :=
+  match read_vals (map (fun x => tag (fst x)) fr) d with
+  | inl (ws, d') => inl (combine ws (map snd fr), d')
+  | inr r => inr r
+  end.
+
 Definition mset_scr (m : mio) (d : dev) : mio := mk_mio d (mdat m) (margs m) (mframes m) (mbyref m).
 
 Record mstate := mk_m {
@@ -125,6 +134,75 @@ Definition step (code : list ipos) (s : mstate) : mresult :=
       | IPrintEnd =>
           MRunning (next (mk_m (pc s) (rstack s) (vstack s) (pstack s) (mvars s)
                                (if mskip s then mscreen s else mset_scr (mscreen s) (println (mscr (mscreen s)))) false))
+      | IBeginCollect =>
+          let m := mscreen s in
+          MRunning (next (mk_m (pc s) (rstack s) (vstack s) (pstack s) (mvars s) (mset_call m (mdat m) ([] :: margs m) (mframes m) (mbyref m)) (mskip s)))
+      | IPushUnnamedByVal =>
+          let m := mscreen s in
+          match margs m with
+          | a :: rest => MRunning (next (mk_m (pc s) (rstack s) (vstack s) (pstack s) (mvars s)
+                                              (mset_call m (mdat m) ((a ++ [(ra r, None)]) :: rest) (mframes m) (mbyref m)) (mskip s)))
+          | [] => MPanic 6 s
+          end
+      | IPushUnnamedByRef =>
+          let m := mscreen s in
+          match pstack s, margs m with
+          | n :: ps', a :: rest => MRunning (next (mk_m (pc s) (rstack s) (vstack s) ps' (mvars s)
+                                              (mset_call m (mdat m) ((a ++ [(ra r, Some n)]) :: rest) (mframes m) (mbyref m)) (mskip s)))
+          | [], _ => MPanic 2 s
+          | _, [] => MPanic 6 s
+          end
+      | IPushStack =>
+          let m := mscreen s in
+          match margs m with
+          | a :: rest => MRunning (next (mk_m (pc s) (rstack s) (vstack s) (pstack s) (mvars s)
+                                              (mset_call m (mdat m) rest (a :: mframes m) (mbyref m)) (mskip s)))
+          | [] => MPanic 6 s
+          end
+      | IPopStack =>
+          let m := mscreen s in
+          match mframes m with
+          | _ :: rest => MRunning (next (mk_m (pc s) (rstack s) (vstack s) (pstack s) (mvars s)
+                                              (mset_call m (mdat m) (margs m) rest (mbyref m)) (mskip s)))
+          | [] => MPanic 6 s
+          end
+      | IBuiltinData =>
+          let m := mscreen s in
+          match mframes m with
+          | fr :: _ => MRunning (next (mk_m (pc s) (rstack s) (vstack s) (pstack s) (mvars s)
+                                            (mset_call m (mdat m ++ map fst fr) (margs m) (mframes m) (mbyref m)) (mskip s)))
+          | [] => MPanic 6 s
+          end
+      | IBuiltinRead =>
+          let m := mscreen s in
+          match mframes m with
+          | fr :: rest =>
+              match read_frame fr (mdat m) with
+              | inl (fr', d') => MRunning (next (mk_m (pc s) (rstack s) (vstack s) (pstack s) (mvars s)
+                                                      (mset_call m d' (margs m) (fr' :: rest) (mbyref m)) (mskip s)))
+              | inr (x, d') => MError x p (mk_m (pc s) (rstack s) (vstack s) (pstack s) (mvars s)
+                                                (mset_call m d' (margs m) (mframes m) (mbyref m)) (mskip s))
+              end
+          | [] => MPanic 6 s
+          end
+      | IEnqueue i =>
+          let m := mscreen s in
+          match mframes m with
+          | fr :: _ =>
+              match nth_error fr i with
+              | Some (v, _) => MRunning (next (mk_m (pc s) (rstack s) (vstack s) (pstack s) (mvars s)
+                                                    (mset_call m (mdat m) (margs m) (mframes m) (mbyref m ++ [v])) (mskip s)))
+              | None => MPanic 6 s
+              end
+          | [] => MPanic 6 s
+          end
+      | IDequeue =>
+          let m := mscreen s in
+          match mbyref m with
+          | v :: rest => MRunning (next (set_a (mk_m (pc s) (rstack s) (vstack s) (pstack s) (mvars s)
+                                                     (mset_call m (mdat m) (margs m) (mframes m) rest) (mskip s)) v))
+          | [] => MPanic 6 s
+          end
       | IOther => MPanic 5 s
       end
   end.
